@@ -735,18 +735,46 @@ func runValues(c *vlib.Ctx) {
 	}
 	// entries that are not multihashes at all (the schema says Bytes)
 	doChunk(c, chV{Entries: [][]byte{{}, {0}, {0xff, 0xff, 0xff}, bytes.Repeat([]byte{7}, 300)}}, false)
-	if c.Thorough() {
+	// LARGE values, through every encode / decode path (direct oracles and CID stability only:
+	// too big for a Coq literal).  16384 multihashes is the default IPNI chunk size: about 590 KB
+	// in DAG-CBOR and over 1 MiB in DAG-JSON.
+	for _, n := range []int{16384, 30000} {
 		big := chV{Next: next}
-		for i := 0; i < 16384; i++ {
+		for i := 0; i < n; i++ {
 			mh, _ := multihash.Sum([]byte(fmt.Sprint("big", i)), multihash.SHA2_256, -1)
 			big.Entries = append(big.Entries, []byte(mh))
 		}
-		// only the direct oracles: too large for a Coq literal
 		for _, codec := range []string{"cbor", "json"} {
-			if clause, detail, _ := valueOracle(codec, chunkOps(big)); clause != "" {
-				c.Fail("value:"+codec+":chunk:"+clause+":entries=16384", detail, nil)
-			}
+			clause, detail, block := valueOracle(codec, chunkOps(big))
 			c.Eval()
+			c.Count(fmt.Sprintf("large:chunk:%d:%s:%dKB", n, codec, len(block)>>10))
+			if clause != "" {
+				c.Fail(fmt.Sprintf("value:%s:chunk:%s:entries=%d", codec, clause, n), fmt.Sprintf("entry chunk of %d sha2-256 multihashes (%d bytes as %s): %s: %s", n, len(block), codec, clause, detail), replay{Kind: "bigchunk", Depth: n, Codec: codec})
+			}
+		}
+	}
+	{
+		// an advertisement with maximal context ID and metadata, many long addresses, many extended providers
+		bigAd := adV{Prev: prevC, Provider: "12D3KooWCryG7Mon9orvQxcS1rYZjotPgpwoJNHHKcLLfE4Hf5mV", Sig: fill(256, 1), Entries: entC,
+			Ctx: fill(schema.MaxContextIDLen, 2), Meta: fill(schema.MaxMetadataLen, 3), Ext: &extV{Override: true}}
+		long := "/dns/" + strings.Repeat("a-very-long-label.", 12) + "example.com/tcp/443/https/http-path/" + strings.Repeat("segment%2F", 20)
+		for i := 0; i < 300; i++ {
+			bigAd.Addrs = append(bigAd.Addrs, fmt.Sprintf("%s%d", long, i))
+		}
+		for i := 0; i < 1500; i++ {
+			p := provV{ID: fmt.Sprintf("12D3KooWProvider%06d", i), Meta: fill(schema.MaxMetadataLen, byte(i)), Sig: fill(128, byte(i))}
+			for j := 0; j < 4; j++ {
+				p.Addrs = append(p.Addrs, fmt.Sprintf("%s%d-%d", long, i, j))
+			}
+			bigAd.Ext.Provs = append(bigAd.Ext.Provs, p)
+		}
+		for _, codec := range []string{"cbor", "json"} {
+			clause, detail, block := valueOracle(codec, adOps(bigAd))
+			c.Eval()
+			c.Count(fmt.Sprintf("large:ad:%s:%dKB", codec, len(block)>>10))
+			if clause != "" {
+				c.Fail(fmt.Sprintf("value:%s:ad:%s:large", codec, clause), fmt.Sprintf("advertisement with 300 long addresses and 1500 extended providers (%d bytes as %s): %s: %s", len(block), codec, clause, detail), replay{Kind: "bigad"})
+			}
 		}
 	}
 	// values outside the model: required link missing / undefined -- an error, not a panic, from every encoder
